@@ -1,7 +1,8 @@
 SPECIFICATION Spec
 CONSTANTS
-  Accts = {"a", "b", "c"}
+  Accts = {a, b, c}
   MAXU = 3
   MaxActs = 2
 INVARIANTS InvWeak
+SYMMETRY Sym
 CHECK_DEADLOCK FALSE
